@@ -96,6 +96,14 @@ def classify(spec):
         feats.add('external:' + spec['external'])
     if has_ics(spec):
         feats.add('initial-stocks')
+    for pr in spec.get('probes', []):
+        feats.add('probe:' + pr['kind'])
+    if spec.get('probes'):
+        feats.add('probes')
+    if spec.get('user_exclusions'):
+        feats.add('user-exclusions')
+    if spec['zones'] and spec['zones'][0]['currency'] not in ('CAD', 'USD', 'EUR'):
+        feats.add('related-currency-codes')
     return labels + sorted(feats), feats
 
 
